@@ -803,6 +803,35 @@ func ruleLookAhead(c *Ctx, rule string) {
 			extra = desc(f.V) + fmt.Sprintf(" == %v", f.True)
 		}
 		c.check(extra == "", rule, name+": look-ahead unconditional on a non-streaming side", w.At(c2), "no further condition", "the look-ahead is additionally conditional on "+extra+": when that condition fails a second message from the peer is never examined and the RPC succeeds (the handler/caller of a single-message side is given success although several messages were sent)")
+		// the same as a path query (a dominating-fact test does not see an early return that rejoins in front of the
+		// look-ahead): after a successful first read on a non-streaming side no path returns without the look-ahead
+		if c1.Parent() == c2.Parent() && g1 && gFlag.Field != "" {
+			fnR := c1.Parent()
+			cutEdge := func(pred, succ *ssa.BasicBlock) bool {
+				ef, has := edgeFact(pred, succ)
+				if !has {
+					return false
+				}
+				if x, op, y, isCmp := cmpFact(ef); isCmp && op == token.NEQ && isNilConst(y) && origin(x) == err1 {
+					return true
+				}
+				for _, bf := range boolFactsOf([]EdgeFact{ef}) {
+					if fr, _, isF := loadedField(bf.V); isF && fr == gFlag && bf.True {
+						return true
+					}
+				}
+				return false
+			}
+			esc := pathAvoidingE(fnR, c1, func(x ssa.Instruction) bool {
+				_, isRet := x.(*ssa.Return)
+				return isRet && x.Parent() == fnR
+			}, func(x ssa.Instruction) bool { return x == ssa.Instruction(c2) }, cutEdge)
+			pos := w.At(c2)
+			if esc != nil {
+				pos = w.At(esc)
+			}
+			c.check(esc == nil, rule, name+": no return between a successful read and the look-ahead", pos, "every path from the first read with err == nil on a non-streaming side passes the look-ahead", "a path returns after a successful first read on a non-streaming side without the look-ahead read: a second message from the peer is never examined on that path and the RPC succeeds")
+		}
 		if gFlag.Field == "" {
 			c.fail(rule, name+": look-ahead on the non-streaming edge", w.At(c2), "the look-ahead is not on the false edge of a streaming flag")
 		} else {
